@@ -18,7 +18,7 @@ func (e *Engine) verifyFunc(blk *Block, prop string) (fv *FuncVer, err error) {
 	}
 	bv := strings.HasPrefix(blk.Flags["mode"], "bv")
 	fv = &FuncVer{eng: e, ctx: NewCtx(bv), fn: fn, block: blk, obls: map[string]*Obligation{}, maxPaths: 4096,
-		loopInfos: map[*ssa.Function]*loopAnalysis{}, prop: prop, heapSorts: map[string]*Sort{}, stepBudget: 4_000_000}
+		loopInfos: map[*ssa.Function]*loopAnalysis{}, prop: prop, trustedCalls: map[string]bool{}, heapSorts: map[string]*Sort{}, stepBudget: 4_000_000}
 	if mp, ok := blk.Flags["maxpaths"]; ok {
 		if n, err := strconv.Atoi(mp); err == nil {
 			fv.maxPaths = n
